@@ -233,7 +233,8 @@ def rule_return_discipline(ctx: Ctx) -> None:
                            f"(want: one continuation `{cont_name}` in the returned list, no hooks)")
             # side effects: second element of normalize_yield must be in the returned list
             se = [i for i in ret_ing if "_normalize_yield" in i and i.endswith("[1]")]
-            if not se and not any("side_effects" == i for i in ret_ing):
+            nothing_yielded = any(k_[0] == "is" and k_[2] == "None" and k_[1] == "side_effects" for k_ in p.facts)
+            if not se and not any("side_effects" == i for i in ret_ing) and not nothing_yielded:
                 bad.append(f"delay path [{p.describe()}]: events yielded alongside the delay are not in the returned list {sorted(ret_ing)}")
     need(kinds["future"] and kinds["delay"], f"C02-2: invoke lacks future or delay path {kinds}")
     ctx.ob("C02-2", "G2", inv, "send → park | schedule", not bad,
@@ -321,11 +322,16 @@ def rule_return_discipline(ctx: Ctx) -> None:
             dsrc = env.get(unparse(d.args[0]), {unparse(d.args[0])}) if isinstance(d, ast.Call) and path_of(d.func) == "float" and d.args else set()
             if not any(s == f"{vparam}[0]" for s in dsrc):
                 bad.append(f"tuple path: delay `{dtxt}` is not float({vparam}[0]) (sources {sorted(dsrc)})")
-            esrc = env.get(unparse(eff_), {unparse(eff_)})
+            def src_(e_):
+                # sources of the returned effects whether it is a local, or a display written in the return itself (`[effects]`, `[]`)
+                if isinstance(e_, (ast.List, ast.Tuple)):
+                    return set().union(*[src_(x_.value if isinstance(x_, ast.Starred) else x_) for x_ in e_.elts]) if e_.elts else set()
+                return set(env.get(unparse(e_), {unparse(e_)}))
+            esrc = src_(eff_)
             none_branch = p.decided(lambda t: t.endswith("isNone")) is True
             if not none_branch and not any(f"{vparam}[1]" in s_ for s_ in esrc):
                 bad.append(f"tuple path: effects `{unparse(eff_)}` do not come from {vparam}[1] (sources {sorted(esrc)})")
-            if any(f"{vparam}[1]" not in s_ and s_ != unparse(eff_) for s_ in esrc):
+            if any(f"{vparam}[1]" not in s_ and s_ != unparse(eff_) and not any(isinstance(x_, ast.Name) and x_.id == s_ for x_ in ast.walk(eff_)) for s_ in esrc):
                 bad.append(f"tuple path: effects carry something other than {vparam}[1]: {sorted(esrc)}")
         elif is_num:
             seen["number"] += 1
